@@ -6,6 +6,7 @@ From Coq Require Import Strings.Byte.
 Require Import BS.Bytes BS.Common BS.Api BS.Layout BS.Format BS.FormatFacts BS.Spec BS.SpecStep.
 Require Import BS.FS BS.FSFacts BS.Meta BS.MetaFacts BS.Header BS.Reader BS.ReaderFacts BS.Index BS.Data BS.DataFacts BS.Seek BS.Series BS.SeriesFacts BS.TotalFacts BS.OpenFacts BS.HistoryFacts.
 Require Import BS.World BS.Judge BS.JudgeFacts.
+Require Import BS.CacheFacts BS.JudgeCacheFacts.
 Import ListNotations.
 
 (* (I) under the representation invariant the accessors report the contents *)
@@ -55,3 +56,14 @@ Theorem C12_session_accepted_by_judge : forall (name:list byte) (p:nat) (hdr:lis
   accepted World.init_world judge_init (ONew name (N.of_nat p) hdr [] cb :: ops).
 Proof. exact session_accepted. Qed.
 Print Assumptions C12_session_accepted_by_judge.
+
+(* the same for a series WITH cache levels (invariant RepS, props/C08.v): these calls never look at the levels, so what holds
+   for the series without them holds with them *)
+Theorem C12_accessors_with_caches : forall fs s p hdr ihdr l cs, RepS fs s p hdr ihdr l cs ->
+  data_len_lines (s_data s) = Ok (len l) /\ s_range s = first_last l /\ d_p (s_data s) = p
+  /\ series_last_line s fs = (fs, match last_opt l with Some x => Ok x | None => Err ENoData end).
+Proof.
+  intros fs s p hdr ihdr l cs R. split; [exact (len_caches _ _ _ _ _ _ _ R)|]. split; [exact (range_caches _ _ _ _ _ _ _ R)|].
+  split; [exact (payload_size_caches _ _ _ _ _ _ _ R)|exact (last_line_caches _ _ _ _ _ _ _ R)].
+Qed.
+Print Assumptions C12_accessors_with_caches.
